@@ -1,8 +1,8 @@
 """C09 witnesses.  The one recorded finding of C09 (df-23976) is expected to fail and is exercised through
 harness/c09.py finding_witnesses; the witnesses of the repaired defects (`fixed:` lines of KNOWN_FINDINGS.txt:
 tcp-attribute-error 9e84fe8, mnr-sets-start-offset 41b1329, sn-identity 434048d, and - second phase - tnb-zero-division,
-cumulative-before-first, tf-strip-not-cut, comment-flag-ignored, iso6937-a4, blank-row-dropped, vp-zero-above-safe-area)
-and the regression witnesses below must pass: each checks what the specification prescribes on the input that used to
+cumulative-before-first, tf-strip-not-cut, comment-flag-ignored, iso6937-a4, blank-row-dropped, vp-zero-above-safe-area;
+zero-row-count is the C09 side of C18's repaired stl-zero-row-count) and the regression witnesses below must pass: each checks what the specification prescribes on the input that used to
 fail."""
 import os, re
 from witnesses import witness
@@ -167,3 +167,28 @@ def _():
     r1 = c09.run_reader(c09.gsi(dsc=b"0") + c09.tti(vp=1), dict(_BASE, rows=99))
     r0 = c09.run_reader(c09.gsi(dsc=b"0") + c09.tti(vp=0), dict(_BASE, rows=99))
     if r0[1]["regions"] != r1[1]["regions"]: return "VP=0 is not placed like the top row"
+
+
+# ---- the row count below 1 (repaired for C18's stl-zero-row-count; C09_reader_no_zero_div, C09_init_rows) -------------------
+@witness("C09", "zero-row-count")
+def _():
+    import c09
+    from fractions import Fraction
+    # open subtitles (DSC 0): bottom-anchored at VP 20 (2 rows), top-anchored at VP 3; the grid must be the default 23 rows
+    blocks = c09.tti(vp=20, tf=b"A\x8aB") + c09.tti(sn=1, tci=(0, 0, 3, 0), tco=(0, 0, 4, 0), vp=3)
+    ref = c09.run_reader(c09.gsi(dsc=b"0", mnr=b"23") + blocks, dict(_BASE, rows=23))
+    if ref[0] != "ok" or len(ref[1]["regions"]) != 2: return f"reference file with 23 rows: {ref}"
+    for what, mnr, rows in (("GSI MNR 00 with max_row_count=MNR", b"00", "MNR"), ("max_row_count=0", b"23", 0), ("max_row_count=-3", b"23", -3),
+                            ("GSI MNR -3 with max_row_count=MNR", b"-3", "MNR"), ("max_row_count=False", b"23", False)):
+        r = c09.run_reader(c09.gsi(dsc=b"0", mnr=mnr) + blocks, dict(_BASE, rows=rows))
+        if r[0] != "ok": return f"{what}: {r[:2]}"
+        if r[1] != ref[1]: return f"{what}: the document differs from that of 23 rows (regions {r[1]['regions']})"
+        for x, y, w, h, after in r[1]["regions"]:
+            if not (10 <= y and h >= 0 and y + h <= 90 + Fraction(1, 10**9)): return f"{what}: region y={float(y)} h={float(h)} outside the safe area"
+    h = ref[1]["regions"][0][3]
+    if abs(h - Fraction(21 * 80, 23)) > Fraction(1, 10**9): return f"region height {float(h)} is not that of rows 1..21 of 23"
+    # teletext ignores the configured count, 0 included; a valid count is still honoured
+    r = c09.run_reader(c09.gsi(dsc=b"1", mnr=b"00") + blocks, dict(_BASE, rows="MNR"))
+    if r[0] != "ok" or r[1]["regions"] != ref[1]["regions"]: return f"teletext with MNR 00: {r[:2]}"
+    r = c09.run_reader(c09.gsi(dsc=b"0", mnr=b"01") + c09.tti(vp=1), dict(_BASE, rows="MNR"))
+    if r[0] != "ok" or abs(r[1]["regions"][0][3] - 80) > Fraction(1, 10**9): return f"MNR 01 is not one row: {r[:2]}"
